@@ -24,6 +24,7 @@ Definition enc_obs (o : obs) : list N :=
   | OTimed f b => [7; N.of_nat f; encb b]
   | OCrash c => [8; N.of_nat c]
   | OCheck c i => [9; N.of_nat c; i]
+  | OVal f v => [10; N.of_nat f; v]
   end.
 
 Definition draws_of (l : list N) : nat -> N := fun k => nth k l 0.
